@@ -49,6 +49,7 @@ pub fn run(ctx: &Ctx, rep: &mut Report) {
         let mut rng = ctx.rng_for(uni);
         rep.begin_universe(uni);
         let mut u = U::new();
+        u.blanket_ok = true;
         let mut ring = KeyRing::default();
         let owner = u.principal();
         let operator = u.principal();
